@@ -91,7 +91,7 @@ def canary_case(chk: Check, i: int) -> None:
     rng = chk.subrng("canary", i)
     hostile = talref.Schema(rng, "hostile")
     gen, lib, page, cmds = gen_templates(rng, structure=False)
-    detail = {"sub": "canary", "case": i, "lib": lib, "page": page, "context": hostile.vals}
+    detail = {"sub": "canary", "case": i, "case_seed": chk.seed, "lib": lib, "page": page, "context": hostile.vals}
     try:
         out_h = expand(page, new_context(hostile.build()), lib)
         out_i = expand(page, new_context(hostile.inert().build()), lib)
@@ -176,7 +176,7 @@ def python_cases(chk: Check, scratch: Scratch, count: int) -> None:
                 chk.count("python_audit_events_when_enabled", Audit.events)
             elif happened or Audit.events:
                 chk.witness("C18/python-evaluated-with-allowPythonPath-0", {
-                    "sub": "python", "template": tpl, "position": pos, "effect": effect,
+                    "sub": "python", "case_seed": chk.seed, "template": tpl, "position": pos, "effect": effect,
                     "side_effect_observed": happened, "audit_events": Audit.events, "output": out[:300]})
             else:
                 chk.count("python_blocked_when_disabled")
@@ -226,7 +226,7 @@ def handler_cases(chk: Check, scratch: Scratch, count: int) -> None:
                     chk.count("handler_python_evaluated_when_enabled", 1 if happened else 0)
                 elif happened or Audit.events:
                     chk.witness("C18/python-evaluated-through-TALFileHandler-with-allowpythonpath-false", {
-                        "sub": "handler", "template": tpl, "position": pos, "side_effect_observed": happened,
+                        "sub": "handler", "case_seed": chk.seed, "template": tpl, "position": pos, "side_effect_observed": happened,
                         "audit_events": Audit.events, "response": resp.data[:300]})
                 else:
                     chk.count("handler_python_blocked_when_disabled")
@@ -266,7 +266,7 @@ def passthrough_case(chk: Check, i: int) -> None:
                                     "not-equivalent" if "not_equivalent" in p else "not-a-fixed-point")
         if written != safe and problem(safe) is None:
             key = "C18/passthrough-script-style-content-escaped"
-        chk.witness(key, {"sub": "passthrough", "case": i, "document": written, "problem": p})
+        chk.witness(key, {"sub": "passthrough", "case": i, "case_seed": chk.seed, "document": written, "problem": p})
     chk.case(("doc", tuple(sorted(dg.used)), len(written) // 200), {"sub": "passthrough", "document": written[:300]})
 
 
@@ -284,7 +284,7 @@ def restore_case(chk: Check, i: int) -> None:
     gen, lib, page, cmds = gen_templates(rng, structure=True)
     ctx = new_context(schema.build())
     ctx.setLocal("uloc", "user local")
-    detail = {"sub": "restore", "case": i, "lib": lib, "page": page, "context": schema.vals}
+    detail = {"sub": "restore", "case": i, "case_seed": chk.seed, "lib": lib, "page": page, "context": schema.vals}
     try:
         tpls = {"lib": simpleTAL.compileHTMLTemplate(lib)} if lib else {}
         tpls["page"] = simpleTAL.compileHTMLTemplate(page)
@@ -338,6 +338,17 @@ def main() -> int:
         return chk.finish(RULE, ASSUMPTIONS)
     sys.addaudithook(Audit.hook)
     n_canary, n_py, n_handler, n_doc, n_restore = SIZES[chk.tier]
+    if chk.replay_case:
+        single = {"canary": canary_case, "passthrough": passthrough_case, "restore": restore_case}
+        for w in chk.replay_case.get("witnesses", []):
+            chk.seed = w.get("case_seed", chk.seed)
+            if w.get("sub") in single:
+                single[w["sub"]](chk, w["case"])
+            elif w.get("sub") in ("python", "handler"):
+                with Scratch("c18") as scratch:
+                    (python_cases if w["sub"] == "python" else handler_cases)(
+                        chk, scratch, n_py if w["sub"] == "python" else n_handler)
+        return chk.finish(RULE, ASSUMPTIONS, min_distinct=0)
     canary_controls(chk)
     for i in range(n_canary):
         canary_case(chk, i)
